@@ -335,6 +335,21 @@ def graph_np(heap: Heap):
             return z3.Or(a == b_, CANCAST(a, b_))
 
         @staticmethod
+        def may_share_memory(a, b_, *x, **k):
+            # whether two arrays overlap: certainly when they are the same object, otherwise only possible when they have the same owner; beyond
+            # that unknown (an arbitrary boolean) -- enough to see that a decision taken on it leaves the other case open
+            if isinstance(a, SRef) and isinstance(b_, SRef) and a.cls == b_.cls == "ndarray":
+                ba, bb = h.get("ndarray", "base", a.ref), h.get("ndarray", "base", b_.ref)
+                ra, rb = z3.If(ba == 0, a.ref, ba), z3.If(bb == 0, b_.ref, bb)
+                r = h.ctx.fresh("may_share_memory", "bool")
+                h.ctx.assume(z3.Implies(a.ref == b_.ref, r))
+                h.ctx.assume(z3.Implies(ra != rb, z3.Not(r)))
+                return r
+            raise Unsupported("np.may_share_memory on non-array operands")
+
+        shares_memory = may_share_memory
+
+        @staticmethod
         def empty_like(x, dtype=None, order="K", **k):
             # numpy: same shape/dtype; order='K' matches the layout of `x` as closely as possible, i.e.
             # exactly when x is compact (axiom); contents unspecified
